@@ -94,3 +94,48 @@ def check_functions(ix, rep, funcs, label, rule='R-TRUTHY', online=False):
         else:
             rep.ok(rule, f.module.rel, f.qual, slot, 'no robustness value is used for its truth value', f.node.lineno)
     return n
+
+
+def check_data_entry(ix, rep, f, kind, rule='R-TRUTHY'):
+    """the values a data-entry function takes out of the data set are samples: in the discrete-time online monitor each is one number, and 0.0
+    is a number.  Used for its truth value (`if not value: continue`, `value or default`) a zero sample is treated as "no sample" and the
+    variable keeps the value of the previous update.  Tainted: everything subscripted or unpacked from the data-set parameter except the
+    name component (`data[0]`, the dictionary keys)."""
+    if len(f.node.args.args) < 2:
+        return 0
+    dparam = f.node.args.args[-1].arg
+    tainted = {dparam}
+    names_only = set()
+    changed = True
+    while changed:
+        changed = False
+        for n in ast.walk(f.node):
+            pairs = []
+            if isinstance(n, ast.Assign) and len(n.targets) == 1 and isinstance(n.targets[0], ast.Name):
+                pairs.append((n.targets[0].id, n.value))
+            elif isinstance(n, ast.For):
+                for t in ast.walk(n.target):
+                    if isinstance(t, ast.Name):
+                        pairs.append((t.id, n.iter))
+            for name, val in pairs:
+                roots = {x.id for x in ast.walk(val) if isinstance(x, ast.Name)}
+                if roots & tainted and name not in tainted:
+                    # the name component of a (name, value) pair is a string
+                    if isinstance(val, ast.Subscript) and isinstance(val.slice, ast.Constant) and val.slice.value == 0 and isinstance(n, ast.Assign):
+                        names_only.add(name)
+                        continue
+                    tainted.add(name)
+                    changed = True
+    bad = None
+    for e in _truth_uses(f.node):
+        if isinstance(e, ast.Name) and e.id in tainted and e.id != dparam and e.id not in names_only:
+            bad = e
+        elif isinstance(e, ast.Subscript) and isinstance(e.value, ast.Name) and e.value.id in tainted and not (isinstance(e.slice, ast.Constant) and e.slice.value == 0):
+            bad = e
+    slot = '%s:data-entry' % kind
+    if bad is not None:
+        rep.fail(rule, f.module.rel, f.qual, slot, 'a value taken from the data set (`%s`) is used for its truth value: a sample that is exactly 0 (a legal input, and the robustness of '
+                 'a predicate that is met with equality) is treated as "no sample" -- the variable keeps the value of the previous update' % ast.unparse(bad), bad.lineno)
+    else:
+        rep.ok(rule, f.module.rel, f.qual, slot, 'no value of the data set is tested by truthiness', f.node.lineno)
+    return 1
